@@ -50,3 +50,118 @@ def req_pipe_detached(h):
         h.check(after.vname == want, "c10.req-detach.unrelated-detach-changed-the-request-state",
                 f"state was {want}, pipe {pipe} (not the request holder) detached, state is now {after.vname}")
         h.cover("c10.req-detach.unrelated")
+
+
+# ------------------------------------------------------------------------------------------------
+# REQ: alternation over call histories (single caller), through the real send() and recv() coroutines
+def req_history(h):
+    """ReqSocket::{send, recv} (coroutine MIR; recv contains a biased tokio::select! over the reply notifier and the
+    ingress engine) on a hand-assembled socket with one peer and the real AddressedIngressEngine; RCVTIMEO = 0.
+    All histories of k operations from {send, recv, a reply arrives}. Successful operations must alternate
+    send, recv, send, ...; a refused call is an InvalidState error and changes nothing."""
+    from .d_c09 import Fut, _req_socket, DYN
+    from .d_c02 import _mk_msg, _tag
+    from ..models import some, none, ok, err, dur_ns, _deref
+    prog = h.it.prog
+    k = h.params.get("ops", 4)
+    sock, lb, fields, variants = _req_socket(h, peers=1)
+    AIE2 = "socket::patterns::addressed_ingress::AddressedIngressEngine"
+    PMS = "socket::patterns::ready_pipe_queue::PipeMessageSender"
+    eng = Ref(Cell(h.method(AIE2, "new", 4), "ingress"), ())
+    snd = Ref(Cell(h.method(AIE2, "register_pipe", eng, 0, 4, 1), "s0"), ())
+    sock.load().f[fields.index("ingress_engine")] = eng.load()
+    # RCVTIMEO = 0 in the core's options
+    core = sock.load().f[fields.index("core")].load()
+    cf = prog.struct_fields("socket::core::SocketCore")
+    cs = core.f[cf.index("core_state")].f[0]
+    csf = prog.struct_fields("socket::core::state::CoreState")
+    opts = cs.f[csf.index("options")]
+    of = prog.struct_fields("socket::options::SocketOptions")
+    opts.f[of.index("rcvtimeo")] = some(dur_ns(0))
+    sent = {"n": 0}
+    def iface_send(it, args, dty, func):
+        return Agg("{future}", ["peer_send"])
+    h.it.hooks[DYN + "send_multipart"] = iface_send
+    def extern(it, plain, args, dty, func):
+        if plain.endswith("Future>::poll"):
+            fut = _deref(args[0])
+            while isinstance(fut, BoxV):
+                fut = _deref(fut.load())
+            if isinstance(fut, Agg) and fut.ty == "{future}":
+                sent["n"] += 1
+                return Enum("std::task::Poll", 0, "Ready", [ok(UNIT)])
+            return NotImplemented
+        if plain.endswith("BoundedAsyncSender::is_closed"):
+            return False
+        if plain.endswith("IntoFuture>::into_future") or plain.startswith("std::pin::Pin::"):
+            return args[0]
+        return NotImplemented
+    h.it.extern = extern
+    h.panic_role = "c10.req-history"
+    def state_name():
+        return sock.load().f[fields.index("state")].f[0].vname
+    expecting = False
+    queued = []             # replies waiting in the ingress engine
+    nxt = 0x30
+    last_ok = None
+    for i in range(k):
+        op = h.choose(3, f"op{i}")        # 0 send, 1 recv, 2 a reply arrives
+        if op == 2:
+            fb = Ref(Cell(h.method("message::FrameBatch", "new"), "fb"), ())
+            # REP's empty delimiter frame (MORE), then the reply
+            d0 = Ref(Cell(h.method("message::msg::Msg", "new"), "delim"), ())
+            fl = h.it.run_body(prog.body(h.it.resolve_fn("message::flags::_::<impl message::flags::MsgFlags>::from_bits_retain", "")), [1])
+            h.method("message::msg::Msg", "set_flags", d0, fl)
+            h.method("message::FrameBatch", "push", fb, d0.load())
+            m = _mk_msg(h, nxt, False)
+            h.method("message::FrameBatch", "push", fb, m)
+            # the delimiter frame is empty: rebuild it without payload
+            r = h.method(PMS, "try_send_sync", snd, fb.load())
+            h.check(r.idx == 0, "c10.req-history.setup-enqueue")
+            queued.append(nxt)
+            nxt += 1
+            continue
+        before = state_name()
+        if op == 0:
+            f = Fut(h, "socket::req_socket::ReqSocket", "send", [sock, h.method("message::msg::Msg", "new")], trait="ISocket")
+            r = f.poll()
+            h.check(r is not None, "c10.req-history.send-parked")
+            if r is None:
+                return
+            if expecting:
+                h.check(r.idx == 1 and r.f[0].vname == "InvalidState", "c10.req-history.second-send-without-recv-not-refused", repr(r)[:80])
+                h.check(state_name() == before, "c10.req-history.refused-call-changed-the-state")
+            else:
+                h.check(r.idx == 0, "c10.req-history.valid-send-refused", repr(r)[:80])
+                expecting = True
+                h.check(last_ok != "send", "c10.req-history.two-sends-in-a-row")
+                last_ok = "send"
+        else:
+            f = Fut(h, "socket::req_socket::ReqSocket", "recv", [sock], trait="ISocket")
+            r = f.poll()
+            h.check(r is not None, "c10.req-history.nonblocking-recv-parked")
+            if r is None:
+                return
+            if not expecting:
+                h.check(r.idx == 1 and r.f[0].vname == "InvalidState", "c10.req-history.recv-without-request-not-refused", repr(r)[:80])
+                h.check(state_name() == before, "c10.req-history.refused-call-changed-the-state")
+            elif not queued:
+                h.check(r.idx == 1, "c10.req-history.recv-succeeded-without-a-reply")
+                h.check(state_name() == "ExpectingReply", "c10.req-history.failed-recv-changed-the-state", state_name())
+            else:
+                h.check(r.idx == 0, "c10.req-history.reply-not-returned", repr(r)[:80])
+                if r.idx == 0:
+                    h.check(_tag(r.f[0]) == queued[0], "c10.req-history.wrong-reply", f"{_tag(r.f[0])} vs {queued}")
+                    queued.pop(0)
+                    expecting = False
+                    h.check(last_ok == "send", "c10.req-history.recv-without-preceding-send")
+                    last_ok = "recv"
+                    h.cover("c10.req-history.request-reply-cycle")
+        h.check(state_name() == ("ExpectingReply" if expecting else "ReadyToSend"), "c10.req-history.state-differs-from-reference", f"{state_name()} expecting={expecting}")
+
+
+def replay_req_history(model, params, role):
+    if any(x in role for x in ("failed-recv-changed-the-state", "second-send-without-recv-not-refused", "state-differs-from-reference", "two-sends-in-a-row", "refused-call-changed-the-state")):
+        return "req_timeout_then_send\n", (lambda out: "SECOND SEND ACCEPTED" in out), \
+            "REQ with RCVTIMEO=100 ms against a REP that never answers: send, recv (times out), send; expecting the second send to be accepted"
+    return None
